@@ -5,7 +5,7 @@ EXTENDS RuxReg, Json
 
 CONSTANTS MaxActs, MaxDepth, MaxRoutes
 
-GroupPrefixes == { <<"/", "a">>, <<"b">>, <<"/", "c", "/">> }
+GroupPrefixes == { <<"/", "a">>, <<"b">>, <<"/", "c", "/">>, <<"/">>, <<>> }     \* incl. the root prefixes "/" and ""
 RoutePaths == { <<"/", "x">>, <<"y", "/">>, <<>> }
 
 Init == RegInit
